@@ -53,7 +53,7 @@ import copy
 import re
 
 SEP = "@"
-INLINE_MAX = 16        # statements of a helper that is executed in place
+INLINE_MAX = 24        # statements of a helper that is executed in place
 MAX_NODES = 700        # an expression larger than this is replaced by an opaque symbol when it is bound to a name
 MAX_DEPTH = 4          # nesting of helper calls
 
@@ -399,9 +399,6 @@ class _State:
 
     def fork(self, extra=None):
         return _State(dict(self.env), list(self.pc) + ([extra] if extra is not None else []))
-
-
-_TERMINAL = (ast.Return, ast.Break, ast.Continue, ast.Raise)
 
 
 def _assigned_names(stmts):
